@@ -41,6 +41,15 @@ def c16_cases(rng, tier):
         S([sol(data=[[0] * ln])])
         S([sol(data=[[1], [0] * ln, [2]])])
         S([sol(), sol(predicate=addr(1), data=[[0] * ln] * 2)])
+    # far above the limits: sizes that wrap to an accepted value if a count is ever narrowed to 8 / 16 bits
+    S([sol(predicate=addr(i % 50)) for i in range(356)])
+    S([sol(predicate=addr(i % 50)) for i in range(65536 + 100)])
+    S([sol(data=[[1]] * 356)])
+    S([sol(data=[[1]] * (65536 + 100))])
+    S([sol(data=[[0] * (65536 + 10000)])])
+    S([sol(muts=muts_n(65536 + 1000))])
+    S([sol(muts=[([5] * (65536 + 1000), [1])])])
+    S([sol(muts=[([5], [1] * (65536 + 10000))])])
     # total number of mutations, in one solution and spread over several
     for split in ((999,), (1000,), (1001,), (500, 500), (500, 501), (1000, 1), (1, 1000), (999, 1), (334, 333, 333), (334, 334, 333)):
         sols, base = [], 0
